@@ -15,3 +15,27 @@ claim("C13", "static: non-blocking summary of the node loop body (call graph), s
       "Structural necessary conditions: enqueue is a non-blocking select on a bounded queue; nothing reachable from the loop body can block; a per-channel worker that can end on its own is awaited by Channel.run, or it never ends on its own (a failed write returns to the queue). Behaviour under real stalls is not observed.",
       "Trusts Go type checker / SSA; denylist of blocking library calls is enumerated in the checker (time.Sleep, sync locks/waits, io/net/bufio reads, I/O interface methods).",
       "DESIGN.md §5 C13")
+claim("C01", "static: symbolic byte-buffer interpretation of marshalTo (offsets affine in payload length) against the spec table, shift-table extraction of the LE24/LE48 helpers, reader destination map, dominance of the v1 id gate, constant evaluation of capacities (go/ssa + go/types)",
+      "Decides that the byte layout implemented by writer and reader agrees with the MAVLink spec table (not merely with each other), that ids > 255 cannot reach the v1 buffer, that marker constants dispatch to the right frame kind, and that buffer/peek capacities cover the largest frame. Round-trip equality over all values is not observed; it rests on this layout agreement plus bufio/encoding/binary.",
+      "Spec table transcribed from the MAVLink serialization guide inside the checker; trusts encoding/binary, bufio, copy semantics.",
+      "DESIGN.md §5 C01")
+claim("C02", "static: ordered hash-input extraction (symbolic bytes) of GenerateChecksum vs spec, edge-cut must-pass-through of the checksum comparison in Reader.Read, no-store-before-validation, constant checks of the X.25 framing, rejection inventory (go/ssa)",
+      "Decides the pre-image order/content of the checksum, that decode/delivery/any modification of the parsed frame lie behind the pass edge of the comparison of the frame's own generated and carried checksum, X.25 init/no-final-xor/byte order, and that no unknown rejection drops frames. The CRC step arithmetic itself is not decided.",
+      "X25.Write's arithmetic identity with CRC-16/MCRF4XX is assumed (covered by the repository's own x25 unit test vectors).",
+      "DESIGN.md §5 C02")
+claim("C05", "static: dominance of the marker read over all returns, who-may-call inventory of stream-consuming primitives, Peek/Discard pairing, peek-buffer lifetime typestate, constant index bounds, 8-bit arithmetic lint on wire bytes, tlog reader plumbing (go/ssa)",
+      "Decides the code-shape necessary conditions of totality/progress/segmentation independence: at least one byte consumed per non-fatal call, only exact-length primitives, peeked bytes never used after a refill, all constant indices inside their peeked block, consumed length = written length, one-byte resynchronisation. Panic-freedom in general and segmentation independence as behaviours are not observed.",
+      "Trusts bufio.Reader / io.ReadFull contracts.",
+      "DESIGN.md §5 C05")
+claim("C06", "static: ordered hash-input extraction of GenerateSignature vs spec, edge-cut must-pass-through of the three signature gates, sign-last ordering with feasible-path enumeration, configuration plumbing tables (go/ssa)",
+      "Decides that every wire byte (and key, link id, timestamp) is in the SHA-256 pre-image in spec order, that with an incoming key delivery lies behind type test, presence test and whole-array signature comparison, that writers set flag/link id/timestamp/checksum before signing and nothing after, and that keys are forwarded to every reader/writer. Unforgeability is SHA-256's.",
+      "Trusts crypto/sha256 and Go array comparison.",
+      "DESIGN.md §5 C06")
+claim("C07", "static: unsigned-subtraction-under-comparison lint with dominating-guard check, normalisation of the window comparison (constant, strictness, operands), single-store monotone-update rule, constant evaluation of the timestamp unit and epoch (go/ssa)",
+      "Decides that the window arithmetic cannot wrap, that the refusal is strict with constant 1,000,000 and only after signature verification, that the remembered maximum only moves forward and only for verified, accepted frames, and that writers stamp uint64(time.Since(2015-01-01 UTC))/10000. Monotonicity of the wall clock is not decided.",
+      "Trusts time.Since/time.Date.",
+      "DESIGN.md §5 C07")
+claim("C09", "static: guard→effect facts of both Initialize siblings, frame-field store provenance in the originating writers, success-edge control dependence of the sequence increment on the hand-over, checksum provenance and ordering, isV2 provenance at every encode site (go/ssa)",
+      "Decides initialisation refusals, that header identity fields come from the link configuration before the checksum, that the per-link counter has one increment on the success edge of the hand-over only (no number burned by a refused write), checksum from the frame's own codec after encoding, and version-correct encoding at every site. Emitted sequences over long histories are not observed.",
+      "uint8 wrap is the type's; per-link independence rests on one writer object per channel (C11 R11.4).",
+      "DESIGN.md §5 C09")
